@@ -99,3 +99,61 @@ def load_order(r, F):
     r.require(len(h) == 1 and any(bb == h[0].idx for bb, _ in backslice(fn, kg[0].term.args[1], "prov").calls) and
               any(bb == h[0].idx for bb, _ in backslice(fn, eng[0].term.args[1], "prov").calls), fn, "one hash for keeper and engine",
               "keeper and engine are probed with the single hash_one(key)", "keeper / engine are probed with different hashes", ln=fn.lo)
+
+
+IO_CALL = r"manager::Block::(read|write)$|io::engine::IoEngine::(read|write)$|IoEngine>::(read|write)$"
+
+
+def io_result_checked(r, F):
+    """every device read / write of the block engine and the tombstone log returns `(buffer, Result)`: in each body the Result of every such call is taken out of
+    the tuple and propagated with `?`, matched, or handed on to the caller — never dropped unseen (a failed write must not be indexed / acknowledged, a failed
+    read must not be decoded)"""
+    from sa import flow
+
+    def fate(f, X):
+        def sink(g, s_, idx, kind):
+            if kind == "call" and s_.callee and re.search(r"ops::Try::branch$", s_.callee) and idx == 0:
+                return "try"
+            return None
+        fl = flow.forward(F, f, [X], sink=sink)
+        if fl.sinks:
+            return "propagated with ?"
+        if fl.returned:
+            return "returned"
+        moved = {X}
+        grew = True
+        while grew:
+            grew = False
+            for b in f.blocks:
+                for st in b.stmts:
+                    if st.k == "assign" and st.place.is_local() and st.rv.k == "use" and st.rv.ops[0].place is not None and st.rv.ops[0].place.is_local() \
+                            and st.rv.ops[0].place.local in moved and st.place.local not in moved:
+                        moved.add(st.place.local)
+                        grew = True
+        for b in f.blocks:
+            if b.cleanup:
+                continue
+            if b.term.k == "switch" and b.term.discr.place is not None and moved & backslice(f, b.term.discr, "prov").locals:
+                return "matched"
+            for st in b.stmts:
+                if st.k == "assign" and st.rv.k == "agg" and any(o.place is not None and o.place.is_local() and o.place.local in moved for o in st.rv.ops):
+                    return "handed on in the result"
+        return None
+    n = 0
+    for f in F.all_fns("P"):
+        if f.crate.name != "foyer_storage" or "::tests::" in f.short or "test_utils" in f.file or f.file.startswith("/") or not re.search(r"engine/block/", f.file):
+            continue
+        calls = f.calls_to(IO_CALL)
+        if not calls:
+            continue
+        xs = [st for b in f.blocks if not b.cleanup for st in b.stmts if st.k == "assign" and st.rv.k == "use" and st.rv.ops[0].place is not None and st.rv.ops[0].place.proj
+              and st.place.is_local() and (f.local_ty(st.place.local) or "").startswith("std::result::Result<") and "IoB" in (f.local_ty(st.rv.ops[0].place.local) or "")
+              and (f.local_ty(st.rv.ops[0].place.local) or "").startswith("(")]
+        fates = [(st.ln, fate(f, st.place.local)) for st in xs]
+        good = [x for x in fates if x[1]]
+        n += len(calls)
+        r.require(len(good) >= len(calls) and len(good) == len(fates), f, "io results checked (%d call(s))" % len(calls), "each device call's Result is %s" % ", ".join(sorted({x[1] for x in good})),
+                  "%d device read/write call(s) but %d checked Result(s) %s: the outcome of an io is dropped unseen — a failed write is treated as durable (its entries are indexed / the tombstone is "
+                  "acknowledged), a failed read is decoded as if it had succeeded" % (len(calls), len(good), fates), ln=calls[0].term.ln)
+    if n < 11:
+        r.fail(None, "sites", "only %d device calls found in the block engine (11 confirmed)" % n)
